@@ -109,7 +109,7 @@
    *)
 From CacheV Require Import Base SpecMap TableModel XMachine TabExec Exec XExec Lin.
 From CacheV.proofs Require Import C11_lists C11_table C11_idx X_basic X_inv X_c13 X_inst X_own X_chain X_c04 X_lin X_resize X_swar X_atomic X_range X_loadhit.
-From CacheV.proofs Require X_stale X_linpoints X_linearizable.
+From CacheV.proofs Require X_stale X_linpoints X_linearizable X_linearizable2.
 From Coq Require Import NArith.
 Local Open Scope nat_scope.
 
@@ -274,6 +274,16 @@ Theorem C04_linearizable_instance :
                          (x_machine_init sds hint todo) sched))).
 Proof. exact X_linearizable.xmachine_linearizable_instance. Qed.
 Print Assumptions C04_linearizable_instance.
+
+(* ... with Range and Size calls allowed in the todo lists (no hypothesis on them at all) and dropped from the history *)
+Theorem C04_linearizable_any_calls :
+  forall (K V : Type) (eqd : forall a b : K, {a = b} + {a <> b}) hash idx tag nslots seeds g sh probe nstripes minlen grow_only,
+    xhyps4 idx nstripes minlen nslots probe -> forall len0 todo sched, (0 < len0)%nat ->
+    linearizable (@xop K V) (@xres K V) (X_linpoints.amap K V) (X_linpoints.xspec eqd) X_linpoints.aempty
+      (X_linearizable2.hkeep (fun _ => false)
+         (X_linpoints.xhist (snd (@xrun K V eqd hash idx tag nslots seeds g sh probe nstripes minlen grow_only (xinit nslots seeds nstripes len0 todo) sched)))).
+Proof. exact @X_linearizable2.xmachine_linearizable2_proof. Qed.
+Print Assumptions C04_linearizable_any_calls.
 
 Theorem C04_stale_frozen :
   forall (K V : Type) (eqd : forall a b : K, {a = b} + {a <> b}) hash idx tag nslots seeds g sh probe nstripes minlen grow_only,
